@@ -246,16 +246,15 @@ Qed.
     may spend what the potential gains. *)
 Lemma spec_for_n_pot {S} F c (g : Z) K (Phi : S -> Z) (PhiMax : Z) (P : N -> S -> Prop)
       (body : N -> S -> prog S) (n : N) :
-  (0 <= g)%Z -> (0 <= K)%Z ->
-  (forall i st, P i st -> (Phi st <= PhiMax)%Z) ->
+  (0 <= g)%Z ->
   (forall i st, i < n -> P i st ->
-     spec F c (fun st' => - g + Phi st' - Phi st)%Z K (body i st)
+     spec F c (fun st' => - g + Phi st' - Phi st)%Z (K + PhiMax - Phi st)%Z (body i st)
           (fun st' n1 => (1 <= n1)%nat /\ P (i + 1) st')) ->
   forall i st, i <= n -> P i st ->
   spec F c (fun st' => - g * Z.of_N (n - i) + Phi st' - Phi st)%Z (K + PhiMax - Phi st)%Z
        (for_n F body n i st) (fun st' _ => P n st').
 Proof.
-  intros Hg HK HPhi Hbody.
+  intros Hg Hbody.
   assert (G : forall f, (f <= F)%nat -> forall i st, i <= n -> P i st ->
      forall s m, (length s < f)%nat -> wf_bytes s ->
      exists r d s' dm, exec_pure (for_n f body n i st) s m = (r, s', m + dm) /\ s = d ++ s' /\
@@ -278,7 +277,7 @@ Proof.
         * destruct Q'; split; auto. nia.
         * destruct Q'; split; auto. nia.
       + exists (Err e), d, s', dm. split; [reflexivity|]. split; [assumption|]. cbn.
-        specialize (HPhi _ _ HP). destruct Q. split; [assumption|lia].
+        destruct Q. split; [assumption|lia].
       + destruct Q.
     - apply N.ltb_ge in E. assert (i = n) by lia. subst i.
       exists (Ok st), [], s, 0. cbn. rewrite N.add_0_r. repeat split; auto. lia. }
@@ -286,18 +285,19 @@ Proof.
 Qed.
 
 Lemma spec_loop_u {S R0} F c (Jx : R0 -> Z) K (P : S -> Prop) (body : S -> prog (S + R0))
-      (R : R0 -> Prop) :
+      (R : R0 -> nat -> Prop) :
   (0 <= K)%Z ->
+  (forall r n n', R r n -> R r (n' + n)%nat) ->
   (forall st, P st ->
      spec F c (fun x => match x with inl _ => 0 | inr r => Jx r end)%Z K (body st)
-          (fun x n1 => match x with inl st' => (1 <= n1)%nat /\ P st' | inr r => R r end)) ->
-  forall st, P st -> spec F c Jx K (loop_u F body st) (fun r _ => R r).
+          (fun x n1 => match x with inl st' => (1 <= n1)%nat /\ P st' | inr r => R r n1 end)) ->
+  forall st, P st -> spec F c Jx K (loop_u F body st) R.
 Proof.
-  intros HK Hbody.
+  intros HK Hmono Hbody.
   assert (G : forall f, (f <= F)%nat -> forall st, P st ->
      forall s m, (length s < f)%nat -> wf_bytes s ->
      exists r d s' dm, exec_pure (loop_u f body st) s m = (r, s', m + dm) /\ s = d ++ s' /\
-       post c Jx K (fun r _ => R r) r (length d) dm).
+       post c Jx K R r (length d) dm).
   { induction f as [|f IH]; intros Hf st HP s m Hs Hw; [lia|].
     cbn [loop_u]. rewrite exec_pure_bind.
     destruct (Hbody st HP s m ltac:(lia) Hw) as (r & d & s' & dm & Ex & Es & Q). rewrite Ex.
@@ -316,6 +316,19 @@ Proof.
     - exists (Err e), d, s', dm. split; [reflexivity|]. split; [assumption|]. cbn. tauto.
     - destruct Q. }
   intros st HP s m Hs Hw. apply (G F (Nat.le_refl _) st HP s m Hs Hw).
+Qed.
+
+(** a spec proved at rate c, used at a higher rate c': every consumed byte gains c' - c *)
+Lemma spec_mono_c_gain {A} F c c' (k : nat) (J : A -> Z) K (p : prog A) (R : A -> nat -> Prop) :
+  c <= c' -> (forall a n, R a n -> (k <= n)%nat) ->
+  spec F c J K p R ->
+  spec F c' (fun a => J a - (Z.of_N c' - Z.of_N c) * Z.of_nat k)%Z K p R.
+Proof.
+  intros Hc Hk H s m Hs Hw. destruct (H s m Hs Hw) as (r & d & s' & dm & E & Es & P).
+  exists r, d, s', dm. repeat split; auto.
+  destruct r as [a|e|]; cbn in *; auto.
+  - destruct P as [P1 P2]. split; auto. specialize (Hk _ _ P2). nia.
+  - destruct P; split; auto. nia.
 Qed.
 
 (** ** byte-level facts *)
